@@ -92,6 +92,12 @@ fn check<'a, T: DiffableStr + ?Sized>(d: &'a TextDiff<'a, 'a, 'a, T>, dl: Dl, fa
 }
 
 fn case(a: &[u8], b: &[u8], alg: Algorithm, dls: &[Dl], out: &mut Local) {
+    for nl_override in 0..3u8 {
+        case_nl(a, b, alg, dls, nl_override, out);
+    }
+}
+
+fn case_nl(a: &[u8], b: &[u8], alg: Algorithm, dls: &[Dl], nl_override: u8, out: &mut Local) {
     let valid = std::str::from_utf8(a).is_ok() && std::str::from_utf8(b).is_ok();
     let far = far_deadline();
     for as_str in [false, true] {
@@ -99,11 +105,21 @@ fn case(a: &[u8], b: &[u8], alg: Algorithm, dls: &[Dl], out: &mut Local) {
             continue;
         }
         for &dl in dls {
-            let ctx = || format!("alg={} type={} inline deadline={:?} old={} new={}", alg_name(alg), if as_str { "str" } else { "[u8]" }, dl, show(a), show(b));
+            let ctx = || format!("alg={} type={} inline deadline={:?} newline_terminated override={} old={} new={}", alg_name(alg), if as_str { "str" } else { "[u8]" }, dl, ["none", "true", "false"][nl_override as usize], show(a), show(b));
             out.eval();
             let r = guard(|| {
                 let mut c = TextDiff::configure();
                 c.algorithm(alg);
+                // a line diff stays a line diff when the newline_terminated flag is overridden
+                match nl_override {
+                    1 => {
+                        c.newline_terminated(true);
+                    }
+                    2 => {
+                        c.newline_terminated(false);
+                    }
+                    _ => {}
+                }
                 if as_str {
                     let d = c.diff_lines(std::str::from_utf8(a).unwrap(), std::str::from_utf8(b).unwrap());
                     check(&d, dl, far)
@@ -172,6 +188,20 @@ pub fn families() -> Vec<Box<dyn Family>> {
                 let alg = ALGS[rng.below(3)];
                 out.sample(|| format!("alg={} old={} new={}", alg_name(alg), show(&a), show(&b)));
                 case(&a, &b, alg, &[Dl::NoneGiven, Dl::Expired, Dl::Fuel(rng.below(3) as u64)], out);
+            },
+        ),
+        family(
+            "reflow",
+            "reflowed paragraphs: the same 4..40 words wrapped at different widths on the two sides (plus 0..2 changed words), so that Replace blocks have several lines on both sides and word-level ops span three and more lines; mixed terminators; x 3 algorithms x 3 inline deadlines x newline_terminated override",
+            false,
+            8,
+            |cfg| cfg.n(6_000, 120_000),
+            |idx, cfg, out| {
+                let mut rng = Rng::for_case(cfg.seed, "c16.reflow", idx);
+                let (a, b) = text_gen::reflow_pair(&mut rng, if cfg.tiny { 4 } else { 36 });
+                let alg = ALGS[rng.below(3)];
+                out.sample(|| format!("alg={} old={:?} new={:?}", alg_name(alg), a, b));
+                case(a.as_bytes(), b.as_bytes(), alg, &[Dl::NoneGiven, Dl::Expired, Dl::Fuel(rng.below(4) as u64)], out);
             },
         ),
         family(
